@@ -19,6 +19,13 @@ mod vfile;
 //#[cfg(feature = "htx")]
 mod htx;
 
+/// sizing probes for external runtime monitors.
+#[cfg(feature = "verif_hooks")]
+pub(crate) mod verif_probe {
+    pub use super::key::verif_key_slot_sizes as key_slot_sizes;
+    pub use super::val::verif_value_slot_sizes as value_slot_sizes;
+}
+
 //#[cfg(feature = "node_cache")]
 //mod nc;
 
